@@ -235,11 +235,28 @@ impl Anchors {
 
     /// Anchors restricted to some families (the interpreter engines cannot afford all of them).
     pub fn compute_for(reg: &Registry, only: Option<&[&str]>) -> Anchors {
+        Self::compute_ordered(reg, only, None)
+    }
+
+    /// `order`: compute the pristine table in a seeded permutation of the types. Each worker process
+    /// uses another order and the driver compares the tables entry by entry: state that the first user
+    /// in a process leaves behind for everybody else (the same in subject and oracle within one process,
+    /// hence invisible there) differs between processes that started with different types.
+    pub fn compute_ordered(reg: &Registry, only: Option<&[&str]>, order: Option<u64>) -> Anchors {
+        let mut idx: Vec<usize> = (0..reg.types.len()).collect();
+        if let Some(seed) = order {
+            let mut rng = crate::prng::Prng::new(seed ^ 0x0A2C_0FDE);
+            for i in (1..idx.len()).rev() {
+                let j = rng.below(i as u64 + 1) as usize;
+                idx.swap(i, j);
+            }
+        }
         let mut slots = Slots::new();
         let slot = slots.alloc(0);
         let mut entries = Vec::new();
         let mut dg = Digest::default();
-        for t in &reg.types {
+        for &ti in &idx {
+            let t = &reg.types[ti];
             if let Some(o) = only {
                 if !o.contains(&t.family) {
                     continue;
@@ -255,11 +272,14 @@ impl Anchors {
                 }
                 let out = fresh_perblock_raw(t, slots.ptr(slot), &key, false, dir, &input);
                 if let Ok(output) = out {
-                    dg.str(&t.name);
-                    dg.bytes(&output);
                     entries.push(AnchorEntry { ty: t.id, key: key.clone(), dir, input: input.clone(), output });
                 }
             }
+        }
+        entries.sort_by_key(|e| (e.ty, e.dir as u8));
+        for e in &entries {
+            dg.str(&reg.types[e.ty].name);
+            dg.bytes(&e.output);
         }
         Anchors { entries, digest: dg.finish() }
     }
@@ -1263,6 +1283,24 @@ impl<'a> World<'a> {
         }
         self.pending.push(Pending { step: self.step, inst: inst.clone(), dir, shape, n, in_off, out_off, data: data.to_vec(), mask: self.mask, outs });
         Ok(StepOut { applied: true, out: first })
+    }
+
+    /// Cold-start mode: the recorded calls as data, so that ANOTHER process can judge them too
+    /// (state left behind by the first user of a process is the same for subject and oracle inside it).
+    pub fn pending_records(&self) -> Vec<Value> {
+        let mut out = Vec::new();
+        for p in &self.pending {
+            for (vidx, ty, res) in &p.outs {
+                if let Ok(o) = res {
+                    let both = self.vset(p.inst.fam, *vidx).both;
+                    let t = &self.reg.types[*ty];
+                    out.push(json!({"type": t.name, "both": self.reg.types[both].name, "key": hex(&p.inst.key), "dir": p.dir.name(),
+                        "data": hex(&p.data), "out": hex(o), "mask_aes": p.mask, "detect": t.detect, "step": p.step,
+                        "route": p.inst.route.iter().map(|s| s.name()).collect::<Vec<_>>()}));
+                }
+            }
+        }
+        out
     }
 
     /// Cold-start mode: judge every recorded call now that the history is over.
